@@ -17,7 +17,13 @@ package main
 // every admitted PUBLISH / will are decided here, on the implementation alone.
 
 import (
+	"bytes"
 	"fmt"
+	"io"
+	"os"
+	"path/filepath"
+	"sort"
+	"strconv"
 	"strings"
 
 	"github.com/256dpi/gomqtt/packet"
@@ -30,9 +36,10 @@ func main() { hx.Main(map[string]func(*hx.Ctx){"c02": runC02}) }
 const maxBuf = 1 << 20 // allocation guard: no generated buffer is larger than this
 
 type step struct {
-	variant byte // r f t
+	variant byte // r f t s
 	typ     packet.Type
 	tail    []byte
+	lim     int // s only: read limit (0 = none)
 }
 
 type runner struct {
@@ -182,6 +189,17 @@ func (r *runner) runPlan(gen string, in []byte, plan []step) {
 	for _, s := range plan {
 		var buf []byte
 		switch s.variant {
+		case 's':
+			// packet.Decoder over an in-memory reader holding input ++ tail: first Read, and the
+			// Read after a successful one
+			all := append(append([]byte{}, in...), s.tail...)
+			if len(all) > maxBuf {
+				continue
+			}
+			r1, r2 := streamRead(all, s.lim)
+			fmt.Fprintf(&sb, " s/%d/%s/%s/%s", s.lim, hx.Hx(s.tail), r1, r2)
+			c.Stat("stream_reads", 1)
+			continue
 		case 'r':
 			buf = in
 		case 'f':
@@ -226,13 +244,14 @@ func (r *runner) run(gen string, in []byte, allTypes bool) {
 	}
 	e, has := extentOf(in)
 	fits := has && e <= len(in)
+	large := len(in) > 20000 // the model runner is slow on these: fewer variants of each
 	if allTypes {
 		for t := packet.Type(1); t <= 14; t++ {
-			plan = append(plan, step{'r', t, nil})
+			plan = append(plan, step{variant: 'r', typ: t})
 		}
 	} else {
 		if native != 0 {
-			plan = append(plan, step{'r', native, nil})
+			plan = append(plan, step{variant: 'r', typ: native})
 		}
 		k := 1
 		if native == 0 {
@@ -241,20 +260,84 @@ func (r *runner) run(gen string, in []byte, allTypes bool) {
 		for i := 0; i < k; i++ {
 			t := packet.Type(1 + c.Rng.Intn(14))
 			if t != native {
-				plan = append(plan, step{'r', t, nil})
+				plan = append(plan, step{variant: 'r', typ: t})
 			}
 		}
 	}
 	if fits && native != 0 {
 		if e < len(in) {
-			plan = append(plan, step{'f', native, nil})
+			plan = append(plan, step{variant: 'f', typ: native})
 		}
 		tail := make([]byte, 1+c.Rng.Intn(8))
 		c.Rng.Read(tail)
-		plan = append(plan, step{'t', native, tail})
-		plan = append(plan, step{'t', native, r.validTail()})
+		if !large {
+			plan = append(plan, step{variant: 't', typ: native, tail: tail})
+		}
+		plan = append(plan, step{variant: 't', typ: native, tail: r.validTail()})
+	}
+	// the same bytes through packet.Decoder.  A hostile remaining length would make it allocate the
+	// announced size: beyond maxBuf the read limit is set (the answer must then be ErrReadLimitExceeded)
+	lim := 0
+	if has && e > maxBuf {
+		lim = maxBuf
+	}
+	plan = append(plan, step{variant: 's', lim: lim})
+	if fits && !large {
+		plan = append(plan, step{variant: 's', lim: lim, tail: r.validTail()})
+		if allTypes || r.id%4 == 0 || gen == "valid" || gen == "boundary" {
+			plan = append(plan, step{variant: 's', lim: e}) // a limit of exactly the packet's size admits it
+			if e > 1 {
+				plan = append(plan, step{variant: 's', lim: e - 1, tail: []byte{0xc0, 0x00}}) // one less refuses it
+			}
+		}
 	}
 	r.runPlan(gen, in, plan)
+}
+
+func errKind(err error) string {
+	switch err {
+	case io.EOF:
+		return "eof"
+	case io.ErrUnexpectedEOF:
+		return "ueof"
+	case packet.ErrDetectionOverflow:
+		return "detov"
+	case packet.ErrReadLimitExceeded:
+		return "limit"
+	case packet.ErrInvalidPacketType:
+		return "badtype"
+	}
+	return "decode"
+}
+
+// the first Read of a fresh packet.Decoder on buf, and the Read that follows a successful one
+func streamRead(buf []byte, lim int) (r1, r2 string) {
+	r1, r2 = "panic", "-"
+	func() {
+		defer func() { _ = recover() }()
+		dec := packet.NewDecoder(bytes.NewReader(buf))
+		if lim > 0 {
+			dec.SetReadLimit(int64(lim))
+		}
+		p, err := dec.Read()
+		if err != nil {
+			r1 = "e=" + errKind(err)
+			return
+		}
+		text := hx.PktText(p)
+		r2 = "panic"
+		r1 = "p=" + text
+		q, err := dec.Read()
+		if err != nil {
+			r2 = "e=" + errKind(err)
+		} else {
+			r2 = "p=" + hx.PktText(q)
+		}
+		if hx.PktText(p) != text {
+			r1 = "p=changed-after-next-read:" + text
+		}
+	}()
+	return
 }
 
 func (r *runner) validTail() []byte {
@@ -277,6 +360,21 @@ func encode(p packet.Generic) ([]byte, bool) {
 
 // replay: re-run the case lines of a replay file with their recorded plans
 func (r *runner) replay(path string) {
+	if st, err := os.Stat(path); err == nil && st.IsDir() {
+		// a directory of `go test -fuzz` corpus files (go test fuzz v1 / []byte("...")): default plans
+		files, _ := filepath.Glob(filepath.Join(path, "*"))
+		sort.Strings(files)
+		for _, f := range files {
+			for _, line := range hx.ReadLines(f) {
+				if strings.HasPrefix(line, "[]byte(") && strings.HasSuffix(line, ")") {
+					if q, err := strconv.Unquote(line[len("[]byte(") : len(line)-1]); err == nil {
+						r.run("fuzz", []byte(q), true)
+					}
+				}
+			}
+		}
+		return
+	}
 	for _, line := range hx.ReadLines(path) {
 		f := strings.Fields(line)
 		if len(f) < 5 || f[0] != "case" {
@@ -289,7 +387,11 @@ func (r *runner) replay(path string) {
 			if len(g) < 4 {
 				continue
 			}
-			plan = append(plan, step{g[0][0], packet.Type(hx.Atoi(g[1])), hx.Unhx(g[2])})
+			if g[0] == "s" {
+				plan = append(plan, step{variant: 's', lim: hx.Atoi(g[1]), tail: hx.Unhx(g[2])})
+			} else {
+				plan = append(plan, step{variant: g[0][0], typ: packet.Type(hx.Atoi(g[1])), tail: hx.Unhx(g[2])})
+			}
 		}
 		r.runPlan(f[2], in, plan)
 	}
